@@ -4,7 +4,7 @@
 -/
 import MajoranaVerif.Proofs.Mvp60SlBack
 import MajoranaVerif.Proofs.Mvp60Flush
-import MajoranaVerif.Proofs.Mvp60SlOk
+import MajoranaVerif.Proofs.Mvp60SlLive
 open GoInt
 
 set_option linter.unusedSimpArgs false
@@ -158,12 +158,14 @@ structure EuKeep (s s' : State) : Prop where
   decodeBus : s'.decodeBus = s.decodeBus
   wbl : s'.writeBus.bufferLength = s.writeBus.bufferLength
   xbl : s'.executeBus.bufferLength = s.executeBus.bufferLength
+  controlBus : s'.controlBus = s.controlBus
 
-theorem EuKeep.refl (s : State) : EuKeep s s := ⟨rfl, rfl, rfl, rfl, rfl, rfl, rfl, rfl, rfl, Nat.le_refl _, rfl, rfl, rfl, rfl⟩
+theorem EuKeep.refl (s : State) : EuKeep s s := ⟨rfl, rfl, rfl, rfl, rfl, rfl, rfl, rfl, rfl, Nat.le_refl _, rfl, rfl, rfl, rfl, rfl⟩
 theorem EuKeep.trans {a b c : State} (h1 : EuKeep a b) (h2 : EuKeep b c) : EuKeep a c :=
   ⟨h2.wq.trans h1.wq, h2.wus.trans h1.wus, h2.eul.trans h1.eul, h2.cyc.trans h1.cyc, h2.pend.trans h1.pend,
    h2.mmu.trans h1.mmu, h2.mode.trans h1.mode, h2.wql.trans h1.wql, h2.xql.trans h1.xql, Nat.le_trans h2.xq h1.xq,
-   h2.ctx.trans h1.ctx, h2.decodeBus.trans h1.decodeBus, h2.wbl.trans h1.wbl, h2.xbl.trans h1.xbl⟩
+   h2.ctx.trans h1.ctx, h2.decodeBus.trans h1.decodeBus, h2.wbl.trans h1.wbl, h2.xbl.trans h1.xbl,
+   h2.controlBus.trans h1.controlBus⟩
 
 theorem runners_cons (s : State) (x : Runner) (q : List Runner) (h : s.executeBus.queue = x :: q) :
     runners s = x :: runners { s with executeBus := { s.executeBus with queue := q } } := by
@@ -235,7 +237,9 @@ theorem runners_nil {s : State} (h : runners s = []) :
 or a taken branch or jump that flushes -/
 theorem euCycle_sim (app : App) (hp : ProgJ app) (s s' : State) (a : Arch) (i : Nat) (out : EuOut) (hT : TgtOk app a)
     (hm : Mid app s a i) (hi : i < s.eus.length) (h : euCycle app s i = .ok (s', out)) :
-    (out = .none ∧ ∃ a', (a' = a ∨ ∃ c, stepArch Proofs.Mvp4.dc app a = .next a' c) ∧ Mid app s' a' (i + 1) ∧ EuKeep s s') ∨
+    (out = .none ∧ ∃ a', (a' = a ∨ ∃ c, stepArch Proofs.Mvp4.dc app a = .next a' c) ∧ Mid app s' a' (i + 1) ∧ EuKeep s s' ∧
+      (Live s → Live s') ∧ (s.executeBus.queue ≠ [] → ∃ c, stepArch Proofs.Mvp4.dc app a = .next a' c) ∧
+      (s.executeBus.queue = [] → s' = s ∧ a' = a)) ∨
     (out = .err ∧ ∃ c, stepArch Proofs.Mvp4.dc app a = .halt .err c) ∨
     (out = .ret ∧ Retired app s s' a) ∨
     (∃ a' from_, out = .flush from_ a'.pc ∧ (∃ c, stepArch Proofs.Mvp4.dc app a = .next a' c) ∧ FlushNow app s s' a' from_ ∧
@@ -250,7 +254,7 @@ theorem euCycle_sim (app : App) (hp : ProgJ app) (s s' : State) (a : Arch) (i : 
     simp only [get_none _ hq, pure, Except.pure, Except.ok.injEq, Prod.mk.injEq] at h
     obtain ⟨rfl, rfl⟩ := h
     left
-    refine ⟨rfl, a, Or.inl rfl, ?_, EuKeep.refl _⟩
+    refine ⟨rfl, a, Or.inl rfl, ?_, EuKeep.refl _, id, (fun h => absurd rfl h), fun _ => ⟨rfl, rfl⟩⟩
     refine ⟨hm.front, hm.back, hm.eus, Nat.le_succ_of_le hm.wbi, hm.room, hm.stamps, hm.wbl, ?_, hm.retBuf, hm.seqs, hm.stale, ?_⟩
     · intro _ x hx; simp only [hq] at hx; cases hx
     · rcases hm.k1 with h1 | h1 | h1
@@ -367,7 +371,26 @@ theorem euCycle_sim (app : App) (hp : ProgJ app) (s s' : State) (a : Arch) (i : 
     have hkeep : ∀ (e : Gen.Execution) (bu : BranchUnit) (fu : FetchUnit) (du : DecodeUnit), EuKeep s (afterExec s i x q bu e fu du) :=
       fun e bu fu du =>
       ⟨rfl, rfl, by simp only [afterExec, List.length_set], rfl, rfl, rfl, rfl, rfl, rfl,
-       by simp only [afterExec, hq, List.length_cons]; omega, rfl, rfl, rfl, rfl⟩
+       by simp only [afterExec, hq, List.length_cons]; omega, rfl, rfl, rfl, rfl, rfl⟩
+    -- what makes the pipeline move is kept by a step that is not a `ret`
+    have hlive : ∀ (e : Gen.Execution) (bu : BranchUnit) (fu : FetchUnit) (du : DecodeUnit),
+        x.instr.run s.ctx app.labels x.pc [] 0#32 = .ok e → e.Return = false → du.ret = s.du.ret →
+        (Live s → fu.co = .done → fu.complete = true) → Live s → Live (afterExec s i x q bu e fu du) := by
+      intro e bu fu du hr hret hdu hfu hl
+      refine ⟨fun en hen => hl.xdue en hen, hl.cdue, hl.ddue, hl.cql, hl.dql, ?_, ?_, hfu hl⟩
+      · have := hl.backL
+        rw [hxin] at this
+        have h2 := this.execute e
+        simp only [afterExec, inside_add]
+        exact h2
+      · intro hdr
+        have hdr' : s.du.ret = true := by rw [← hdu]; exact hdr
+        obtain ⟨r, hrm, hrr⟩ := hl.retIn hdr'
+        rw [hrun] at hrm
+        rcases List.mem_cons.mp hrm with rfl | hrm
+        · have := ret_run app.labels r.instr hrr s.ctx r.pc [] 0#32 e hr
+          rw [hret] at this; cases this
+        · exact ⟨r, hrm, hrr⟩
     -- a taken branch or jump that flushes
     have hflush : ∀ (e : Gen.Execution) (a' : Arch) (n' : Nat) (bu : BranchUnit) (fu : FetchUnit) (du : DecodeUnit),
         a'.pc = pcOf n' → n' ≤ app.instrs.length →
@@ -476,7 +499,7 @@ theorem euCycle_sim (app : App) (hp : ProgJ app) (s s' : State) (a : Arch) (i : 
             exact this
           subst hq0
           exact ⟨rfl, hhalt, hback.dropHead, rfl, heus', ⟨rfl, rfl, by simp only [List.length_set], rfl, rfl, rfl, rfl, rfl, rfl,
-            by simp only [hq, List.length_cons, List.length_nil]; omega, rfl, rfl, rfl, rfl⟩⟩
+            by simp only [hq, List.length_cons, List.length_nil]; omega, rfl, rfl, rfl, rfl, rfl⟩⟩
         | false =>
           obtain ⟨a', n', hstep, hpc', hn'le, hback', hmc, hnf1, hnf2⟩ := hexe e hr hret
           simp only [hr, hret, hmc, Bool.false_eq_true, if_false, bind, Except.bind, pure, Except.pure, hub] at h
@@ -488,7 +511,8 @@ theorem euCycle_sim (app : App) (hp : ProgJ app) (s s' : State) (a : Arch) (i : 
             obtain ⟨rfl, rfl⟩ := h
             left
             split
-            all_goals exact ⟨rfl, a', Or.inr hstep, hmid e a' _ hpc' hback', hkeep _ _ _ _⟩
+            all_goals exact ⟨rfl, a', Or.inr hstep, hmid e a' _ hpc' hback', hkeep _ _ _ _,
+              hlive e _ s.fu s.du hr hret rfl (fun hl => hl.fuDone), (fun _ => hstep), fun h => by cases h⟩
           | true =>
             obtain ⟨hnext, hbr⟩ := hnf2 hpcc
             have hcb : x.instr.instructionType.IsConditionalBranch = true := by
@@ -506,7 +530,8 @@ theorem euCycle_sim (app : App) (hp : ProgJ app) (s s' : State) (a : Arch) (i : 
               have heq : x.pc + 4#32 = e.NextPc := by simpa using hfl
               left
               have hpc'' : a'.pc = pcOf (n0 + 1) := by rw [hpc', ← hnext, ← heq, hxok.1, pcOf_succ]
-              exact ⟨by simp only [hfl, Bool.false_eq_true, if_false], a', Or.inr hstep, hmid e a' _ hpc'' hback', hkeep _ _ _ _⟩
+              exact ⟨by simp only [hfl, Bool.false_eq_true, if_false], a', Or.inr hstep, hmid e a' _ hpc'' hback', hkeep _ _ _ _,
+                hlive e _ s.fu s.du hr hret rfl (fun hl => hl.fuDone), (fun _ => hstep), fun h => by cases h⟩
     | true =>
       -- a jump: the youngest runner; the branch unit has a prediction or not
       obtain ⟨bu1, fu1, hbf, htc, hfu1⟩ := buAssert_jump s.bu s.fu x hub
@@ -577,10 +602,11 @@ theorem euCycle_sim (app : App) (hp : ProgJ app) (s s' : State) (a : Arch) (i : 
               · simp only [effD, afterExec, FetchUnit.reset, if_true, List.length_nil, Nat.add_zero]; omega
               · intro _; simp only [effD, afterExec, FetchUnit.reset, if_true, List.length_nil, Nat.add_zero]; exact hn'le
               · intro hc; simp only [afterExec, FetchUnit.reset] at hc; cases hc
-              · intro _ hn; exact absurd hn hnj
+              · intro hc; simp only [afterExec, FetchUnit.reset] at hc; cases hc
             · intro hc; simp only [afterExec] at hc; cases hc
           refine ⟨by simp only [hfl, Bool.false_eq_true, if_false], a', Or.inr hstep,
-            hmidG e a' n' _ _ _ hpc' hback' hfr (fun _ _ => Or.inr hrest), hkeep _ _ _ _⟩
+            hmidG e a' n' _ _ _ hpc' hback' hfr (fun _ _ => Or.inr hrest), hkeep _ _ _ _,
+            hlive e _ _ _ hr hret rfl (fun _ hc => by simp only [FetchUnit.reset] at hc; cases hc), (fun _ => hstep), fun h => by cases h⟩
 
 /-- once the execute bus queue is empty the remaining execute units find nothing -/
 theorem eus_noop (app : App) : ∀ (n i : Nat) (s : State) (acc : EuAcc), i + n = s.eus.length →
@@ -695,7 +721,7 @@ theorem euCycle_wrong (app : App) (hp : ProgJ app) (s0 s s' : State) (a' : Arch)
       · exact hf.eus eu' h1
       · subst h1; exact ⟨rfl, rfl⟩
     · exact hf.keep.trans ⟨rfl, rfl, by simp only [List.length_set], rfl, rfl, rfl, rfl, rfl, rfl,
-        by simp only [hq, List.length_cons]; omega, rfl, rfl, rfl, rfl⟩
+        by simp only [hq, List.length_cons]; omega, rfl, rfl, rfl, rfl, rfl⟩
     · show (s.writeBus.add (ecOf x e) s.cycles).buffer.length + q.length ≤ 2
       simp only [BufferedBus.add, List.length_append, List.length_cons, List.length_nil]
       have := hf.room; rw [hq] at this; simp only [List.length_cons] at this; omega
@@ -743,18 +769,19 @@ theorem eusCycle_sim (app : App) (hp : ProgJ app) (a0 : Arch) (hT : ∀ k a, Pro
     ∀ (n i : Nat) (s s' : State) (acc acc' : EuAcc) (k : Nat) (a : Arch),
     i + n = s.eus.length → Mid app s a i → Proofs.Mvp4.seqIter app k a0 = some a →
     acc = {} → eusCycle app n i s acc = .ok (s', acc') →
-    (acc' = {} ∧ ∃ k' a', Proofs.Mvp4.seqIter app k' a0 = some a' ∧ Mid app s' a' (i + n) ∧ EuKeep s s') ∨
+    (acc' = {} ∧ ∃ k' a', Proofs.Mvp4.seqIter app k' a0 = some a' ∧ Mid app s' a' (i + n) ∧ EuKeep s s' ∧
+      (Live s → Live s') ∧ k ≤ k' ∧ (s.executeBus.queue ≠ [] → 1 ≤ n → k < k') ∧ (s.executeBus.queue = [] → s' = s ∧ a' = a ∧ k' = k)) ∨
     (acc'.err = true ∧ ∃ k' a', Proofs.Mvp4.seqIter app k' a0 = some a' ∧ ∃ c, stepArch Proofs.Mvp4.dc app a' = .halt .err c) ∨
-    (acc' = { ret := true } ∧ ∃ k' a', Proofs.Mvp4.seqIter app k' a0 = some a' ∧ Retired app s s' a') ∨
+    (acc' = { ret := true } ∧ ∃ k' a', Proofs.Mvp4.seqIter app k' a0 = some a' ∧ Retired app s s' a' ∧ k ≤ k') ∨
     (∃ a' from_, acc' = { flush := true, from_ := from_, pc := a'.pc } ∧
-      ∃ k', Proofs.Mvp4.seqIter app k' a0 = some a' ∧ FlushNow app s s' a' from_) := by
+      ∃ k', Proofs.Mvp4.seqIter app k' a0 = some a' ∧ FlushNow app s s' a' from_ ∧ k < k') := by
   intro n
   induction n with
   | zero =>
     intro i s s' acc acc' k a _ hm hk hacc h
     simp only [eusCycle, pure, Except.pure, Except.ok.injEq, Prod.mk.injEq] at h
     obtain ⟨rfl, rfl⟩ := h
-    left; exact ⟨hacc, k, a, hk, hm, EuKeep.refl s⟩
+    left; exact ⟨hacc, k, a, hk, hm, EuKeep.refl s, id, Nat.le_refl _, (fun _ h => absurd h (by omega)), fun _ => ⟨rfl, rfl, rfl⟩⟩
   | succ n ih =>
     intro i s s' acc acc' k a hlen hm hk hacc h
     simp only [eusCycle, bind, Except.bind] at h
@@ -763,24 +790,30 @@ theorem eusCycle_sim (app : App) (hp : ProgJ app) (a0 : Arch) (hT : ∀ k a, Pro
     · rename_i v hv
       obtain ⟨s1, out⟩ := v
       rcases euCycle_sim app hp s s1 a i out (hT k a hk) hm (by omega) hv with
-        ⟨rfl, a1, hstep, hm1, hk1⟩ | ⟨rfl, c, hc⟩ | ⟨rfl, hret⟩ | ⟨a1, from_, rfl, ⟨c, hc⟩, hfl, hnbw⟩
+        ⟨rfl, a1, hstep, hm1, hk1, hlv1, hq1, hq0⟩ | ⟨rfl, c, hc⟩ | ⟨rfl, hret⟩ | ⟨a1, from_, rfl, ⟨c, hc⟩, hfl, hnbw⟩
       · simp only at h
-        have hk' : ∃ k1, Proofs.Mvp4.seqIter app k1 a0 = some a1 := by
-          rcases hstep with rfl | ⟨c, hc⟩
-          · exact ⟨k, hk⟩
-          · exact ⟨k + 1, Proofs.Mvp4.seqIter_succ hk hc⟩
-        obtain ⟨k1, hk1'⟩ := hk'
+        have hk' : ∃ k1, Proofs.Mvp4.seqIter app k1 a0 = some a1 ∧ k ≤ k1 ∧ (s.executeBus.queue ≠ [] → k < k1) ∧
+            (s.executeBus.queue = [] → s1 = s ∧ a1 = a ∧ k1 = k) := by
+          by_cases hqe : s.executeBus.queue = []
+          · obtain ⟨rfl, rfl⟩ := hq0 hqe
+            exact ⟨k, hk, Nat.le_refl _, fun h => absurd hqe h, fun _ => ⟨rfl, rfl, rfl⟩⟩
+          · obtain ⟨c, hc⟩ := hq1 hqe
+            exact ⟨k + 1, Proofs.Mvp4.seqIter_succ hk hc, Nat.le_succ _, fun _ => Nat.lt_succ_self _, fun h => absurd h hqe⟩
+        obtain ⟨k1, hk1', hle1, hlt1, heq1⟩ := hk'
         have := ih (i + 1) s1 s' acc acc' k1 a1 (by rw [hk1.eul]; omega) hm1 hk1' hacc h
-        rcases this with ⟨e1, k2, a2, e2, e3, e4⟩ | e | ⟨e1, k2, a2, e2, e3⟩ | ⟨a2, f2, e1, k2, e2, e3⟩
+        rcases this with ⟨e1, k2, a2, e2, e3, e4, e5, e6, e7, e8⟩ | e | ⟨e1, k2, a2, e2, e3, e4⟩ | ⟨a2, f2, e1, k2, e2, e3, e4⟩
         · left
-          refine ⟨e1, k2, a2, e2, ?_, hk1.trans e4⟩
-          have : i + 1 + n = i + (n + 1) := by omega
-          rw [← this]; exact e3
+          refine ⟨e1, k2, a2, e2, ?_, hk1.trans e4, fun hl => e5 (hlv1 hl), by omega, fun hne _ => by have := hlt1 hne; omega, ?_⟩
+          · have : i + 1 + n = i + (n + 1) := by omega
+            rw [← this]; exact e3
+          · intro hqe
+            obtain ⟨rfl, rfl, rfl⟩ := heq1 hqe
+            exact e8 hqe
         · right; left; exact e
         · right; right; left
-          exact ⟨e1, k2, a2, e2, ⟨e3.halt, e3.back, e3.xq, e3.eus, hk1.trans e3.keep⟩⟩
+          exact ⟨e1, k2, a2, e2, ⟨e3.halt, e3.back, e3.xq, e3.eus, hk1.trans e3.keep⟩, by omega⟩
         · right; right; right
-          exact ⟨a2, f2, e1, k2, e2, e3.pre hk1⟩
+          exact ⟨a2, f2, e1, k2, e2, e3.pre hk1, by omega⟩
       · simp only [pure, Except.pure, Except.ok.injEq, Prod.mk.injEq] at h
         obtain ⟨_, rfl⟩ := h
         right; left; exact ⟨rfl, k, a, hk, c, hc⟩
@@ -789,7 +822,7 @@ theorem eusCycle_sim (app : App) (hp : ProgJ app) (a0 : Arch) (hT : ∀ k a, Pro
         simp only [Except.ok.injEq, Prod.mk.injEq] at h
         obtain ⟨rfl, rfl⟩ := h
         right; right; left
-        exact ⟨by rw [hacc], k, a, hk, hret⟩
+        exact ⟨by rw [hacc], k, a, hk, hret, Nat.le_refl _⟩
       · -- a flush: the remaining execute units (if any) execute wrong-path runners
         obtain ⟨n', hn', hle⟩ := hfl.npc
         have hsm := hp.small
@@ -802,11 +835,11 @@ theorem eusCycle_sim (app : App) (hp : ProgJ app) (a0 : Arch) (hT : ∀ k a, Pro
           simp only [eusCycle, pure, Except.pure, Except.ok.injEq, Prod.mk.injEq] at h
           obtain ⟨rfl, rfl⟩ := h
           right; right; right
-          exact ⟨a1, from_, rfl, k + 1, Proofs.Mvp4.seqIter_succ hk hc, hfl⟩
+          exact ⟨a1, from_, rfl, k + 1, Proofs.Mvp4.seqIter_succ hk hc, hfl, Nat.lt_succ_self _⟩
         · exact absurd h1 hfl.cond
         · obtain ⟨e1, e2⟩ := eus_wrong app hp s a1 from_ n (i + 1) s1 s' _ acc' (by rw [hfl.keep.eul]; omega) hfl (hnbw h1) h
           right; right; right
-          exact ⟨a1, from_, e1, k + 1, Proofs.Mvp4.seqIter_succ hk hc, e2⟩
+          exact ⟨a1, from_, e1, k + 1, Proofs.Mvp4.seqIter_succ hk hc, e2, Nat.lt_succ_self _⟩
 
 /-! ### the write units -/
 
@@ -828,13 +861,14 @@ structure WuKeep (s s' : State) : Prop where
   wbl : s'.writeBus.bufferLength = s.writeBus.bufferLength
   sid : s'.ctx.sequenceID = s.ctx.sequenceID
   wsub : ∀ ec ∈ s'.writeBus.inside, ec ∈ s.writeBus.inside
+  live : Live s → Live s'
 
-theorem WuKeep.refl (s : State) : WuKeep s s := ⟨rfl, rfl, rfl, rfl, rfl, rfl, rfl, rfl, rfl, rfl, rfl, rfl, rfl, rfl, rfl, fun _ h => h⟩
+theorem WuKeep.refl (s : State) : WuKeep s s := ⟨rfl, rfl, rfl, rfl, rfl, rfl, rfl, rfl, rfl, rfl, rfl, rfl, rfl, rfl, rfl, fun _ h => h, id⟩
 theorem WuKeep.trans {a b c : State} (h1 : WuKeep a b) (h2 : WuKeep b c) : WuKeep a c :=
   ⟨h2.fu.trans h1.fu, h2.decodeBus.trans h1.decodeBus, h2.du.trans h1.du, h2.controlBus.trans h1.controlBus,
    h2.cuPendings.trans h1.cuPendings, h2.executeBus.trans h1.executeBus, h2.eus.trans h1.eus, h2.wus.trans h1.wus,
    h2.mmu.trans h1.mmu, h2.cycles.trans h1.cycles, h2.mode.trans h1.mode, h2.wbuf.trans h1.wbuf, h2.wql.trans h1.wql,
-   h2.wbl.trans h1.wbl, h2.sid.trans h1.sid, fun ec h => h1.wsub ec (h2.wsub ec h)⟩
+   h2.wbl.trans h1.wbl, h2.sid.trans h1.sid, fun ec h => h1.wsub ec (h2.wsub ec h), fun hl => h2.live (h1.live hl)⟩
 
 theorem FrontJ.of_eq {app : App} {s s' : State} {n0 : Nat} (h : FrontJ app s n0) (e1 : s'.executeBus = s.executeBus)
     (e2 : s'.cuPendings = s.cuPendings) (e3 : s'.controlBus = s.controlBus) (e4 : s'.fu = s.fu)
@@ -866,18 +900,29 @@ theorem wuCycle_sim (s s' : State) (a : Arch) (j : Nat) (hj : j < s.wus.length) 
     have hwb := hb.writeback
     have hnm := hb.nomem ec (List.mem_cons_self)
     have hsid : ∀ c : Model.Context, (deletePendingRegisters c ec.readRegisters ec.writeRegisters).sequenceID = c.sequenceID := fun _ => rfl
+    have hlv : ∀ (c' : Model.Context), c' = deletePendingRegisters (if ec.execution.RegisterChange then Model.Seq.writeRegister s.ctx ec.execution else s.ctx)
+          ec.readRegisters ec.writeRegisters →
+        Live s → Live { s with writeBus := { s.writeBus with queue := q }, ctx := c' } := by
+      intro c' hc' hl
+      subst hc'
+      refine ⟨hl.xdue, hl.cdue, hl.ddue, hl.cql, hl.dql, ?_, hl.retIn, hl.fuDone⟩
+      have := hl.backL
+      rw [hin] at this
+      exact this.writeback
     split at h
     · rename_i hrc
       simp only [pure, Except.pure, Except.ok.injEq] at h
       subst h
       simp only [hrc, if_true] at hwb
       have hin' := hin
-      exact ⟨hwb, ⟨rfl, rfl, rfl, rfl, rfl, rfl, rfl, rfl, rfl, rfl, rfl, rfl, rfl, rfl, hsid _, fun e he => by rw [hin]; exact List.mem_cons_of_mem _ he⟩, by simp only [hq, List.length_cons]; omega⟩
+      exact ⟨hwb, ⟨rfl, rfl, rfl, rfl, rfl, rfl, rfl, rfl, rfl, rfl, rfl, rfl, rfl, rfl, hsid _, fun e he => by rw [hin]; exact List.mem_cons_of_mem _ he,
+        hlv _ (by simp only [hrc, if_true])⟩, by simp only [hq, List.length_cons]; omega⟩
     · rename_i hrc
       simp only [hnm, Bool.false_eq_true, if_false, pure, Except.pure, Except.ok.injEq] at h
       subst h
       simp only [hrc, if_false] at hwb
-      exact ⟨hwb, ⟨rfl, rfl, rfl, rfl, rfl, rfl, rfl, rfl, rfl, rfl, rfl, rfl, rfl, rfl, hsid _, fun e he => by rw [hin]; exact List.mem_cons_of_mem _ he⟩, by simp only [hq, List.length_cons]; omega⟩
+      exact ⟨hwb, ⟨rfl, rfl, rfl, rfl, rfl, rfl, rfl, rfl, rfl, rfl, rfl, rfl, rfl, rfl, hsid _, fun e he => by rw [hin]; exact List.mem_cons_of_mem _ he,
+        hlv _ (by simp only [hrc, Bool.false_eq_true, if_false])⟩, by simp only [hq, List.length_cons]; omega⟩
 
 theorem wus_sim (a : Arch) : ∀ (n i : Nat) (s s' : State), i + n = s.wus.length → (∀ wu ∈ s.wus, wu.co = .none) →
     Back s.ctx s.writeBus.inside s.executeBus.inside a →
@@ -1124,7 +1169,7 @@ theorem goFlush_sim (app : App) (hsm : app.instrs.length < 250) (a' : Arch) (fro
 /-- what a tick has to do with the unpipelined run from `a0` -/
 def TickPostG (app : App) (a0 : Arch) (s' : State) : Event → Prop
   | .running => ∃ k a, Proofs.Mvp4.seqIter app k a0 = some a ∧ (RelG app s' a ∨ RelB app s' a ∨ RelF app s' a)
-  | .done .offEnd => ∃ k a, Proofs.Mvp4.seqIter app k a0 = some a ∧ (NoJmp app → ∃ c, stepArch Proofs.Mvp4.dc app a = .halt .offEnd c) ∧
+  | .done .offEnd => ∃ k a, Proofs.Mvp4.seqIter app k a0 = some a ∧ (∃ c, stepArch Proofs.Mvp4.dc app a = .halt .offEnd c) ∧
       s'.ctx.Registers = a.ctx.Registers ∧ s'.ctx.Memory = a.ctx.Memory
   | .done .err => ∃ k a, Proofs.Mvp4.seqIter app k a0 = some a ∧ ∃ c, stepArch Proofs.Mvp4.dc app a = .halt .err c
   | .done .ret => ∃ k a, Proofs.Mvp4.seqIter app k a0 = some a ∧ (∃ c, stepArch Proofs.Mvp4.dc app a = .halt .ret c) ∧
@@ -1547,7 +1592,7 @@ theorem cycleM_simG (app : App) (hp : ProgJ app) (a0 : Arch) (hT : ∀ k a, Proo
           obtain ⟨s5, acc⟩ := v
           simp only at h
           rcases eusCycle_sim app hp a0 hT _ 0 _ s5 {} acc k a (by omega) hmid hk rfl hv with
-            ⟨rfl, k', a', hk', hm5, keep⟩ | ⟨herr, k', a', hk', c, hc⟩ | ⟨rfl, k', a', hk', hret⟩ | ⟨a', from_, rfl, k', hk', hfl⟩
+            ⟨rfl, k', a', hk', hm5, keep, _⟩ | ⟨herr, k', a', hk', c, hc⟩ | ⟨rfl, k', a', hk', hret, _⟩ | ⟨a', from_, rfl, k', hk', hfl, _⟩
           · -- no error, no `ret`: the write units, then the end of the tick
             simp only [afterEus, Bool.false_eq_true, if_false, bind, Except.bind] at h
             have hwus5 : ∀ wu ∈ s5.wus, wu.co = .none := by rw [keep.wus]; exact c_wus
@@ -1581,16 +1626,24 @@ theorem cycleM_simG (app : App) (hp : ProgJ app) (a0 : Arch) (hT : ∀ k a, Proo
                 have hregs := b6.regs
                 rw [hwi] at hregs
                 refine ⟨k', a', hk', ?_, hregs.symm, b6.mem.symm⟩
-                intro hnj
-                obtain ⟨h0, p1, p2, p3, p4, p5, p6, p7⟩ := (hf6.toFront hnj).pcs
-                rw [hdn] at p2 p7
+                have hpd6 : s6.du.pendingBranchResolution = false := by
+                  cases hpd : s6.du.pendingBranchResolution with
+                  | false => rfl
+                  | true =>
+                    obtain ⟨pre, j, hpj, _⟩ := hf6.clo hpd
+                    rw [hrn] at hpj
+                    cases pre <;> cases hpj
+                have heff6 : effD s6 = [] := by
+                  simp only [effD, hdn, ite_self]
+                obtain ⟨h0, p1, p2, p3, p4, p5, p6, p7⟩ := (hf6.opn hpd6).1
+                rw [heff6] at p2 p7
                 rw [hrn] at p3
                 simp only [List.length_nil, Nat.add_zero] at p2 p3 p7
                 have hin := hf6.inRange
                 rw [hrn] at hin
                 simp only [List.length_nil, Nat.add_zero] at hin
                 have hge : app.instrs.length ≤ n0 := by
-                  have := p7 hcomp hnj
+                  have := p7 hcomp
                   rcases p3 with p3 | p3
                   · omega
                   · exact p3.2
@@ -1773,9 +1826,7 @@ theorem TickPostG.weak {app : App} {a0 : Arch} {s' : State} {ev : Event} (h : Ti
     · exact Or.inr (Or.inr hr)
   | done hh =>
     cases hh with
-    | offEnd =>
-      obtain ⟨k, a, hk, h1, h2⟩ := h
-      exact ⟨k, a, hk, h1 (noJmp_of_noCond hn), h2⟩
+    | offEnd => exact h
     | ret => exact h
     | err => exact h
     | panic w => exact h
